@@ -343,21 +343,21 @@ def _enum_failing_ops(tier):
 def _enum_raises(tier):
   """Who dies and who does not when the exception is a BaseException that is not an Exception (sys.exit() in a task)."""
   def sub(prog, base, nested=False):
-    s = {"kind": "gen", "prog": prog, "ret": {"raise": 1, "base": base}}
+    s = {"kind": "gen", "prog": prog, "ret": {"raise": 1, "base": base is True, "falsy": base == "falsy"}}
     if nested:
       s = {"kind": "gen", "prog": [{"op": "call", "sub": s, "catch": False}], "ret": {"v": "token"}}
     return s
   for mode in ("inline", "threaded"):
-    for base in (True, False):
+    for base in (True, False, "falsy"):     # "falsy": an Exception whose truth value is False, raised by sub-tasks
       sites = [
-        {"tasks": [{"prog": [{"op": "yn", "n": 0.125}, {"op": "raise", "base": base}]}]},
+        {"tasks": [{"prog": [{"op": "yn", "n": 0.125}, {"op": "raise", "base": base is True}]}]},
         {"tasks": [{"prog": [{"op": "call", "sub": sub([], base), "catch": True}, {"op": "y0"}]}]},
         {"tasks": [{"prog": [{"op": "call", "sub": sub([{"op": "sleep", "n": 0.125}], base), "catch": True}, {"op": "y0"}]}]},
         {"tasks": [{"prog": [{"op": "call", "sub": sub([{"op": "sleep", "n": 0.125}], base), "catch": False}, {"op": "y0"}]}]},
         {"tasks": [{"prog": [{"op": "call", "sub": sub([], base, True), "catch": True}, {"op": "y0"}]}]},
         {"tasks": [{"form": "target", "prog": [{"op": "call", "sub": sub([], base), "catch": True}, {"op": "y0"}]}]},
-        {"tasks": [{"prog": [{"op": "y0"}]}], "timers": [{"t": 0.125, "rets": ["raise-base" if base else "raise"]}]},
-        {"tasks": [{"prog": [{"op": "y0"}]}], "timers": [{"t": 0.125, "recurring": True, "rets": [None, "raise-base" if base else "raise"]}]},
+        {"tasks": [{"prog": [{"op": "y0"}]}], "timers": [{"t": 0.125, "rets": ["raise-base" if base is True else "raise"]}]},
+        {"tasks": [{"prog": [{"op": "y0"}]}], "timers": [{"t": 0.125, "recurring": True, "rets": [None, "raise-base" if base is True else "raise"]}]},
       ]
       for site in sites:
         for p1 in _programs(0, 1):
@@ -616,7 +616,7 @@ def _strategy(tier, mode="inline"):
                                 "bs": st.sampled_from([None, None, 1, 2]), "t": st.sampled_from([None, None, None, 0.5, 0, 0.0])})
   busy = st.fixed_dictionaries({"op": st.just("busy"), "d": dur})
   ret = st.sampled_from(["end", {"v": "token"}, {"v": "token"}, {"v": 0}, {"v": False}, {"v": None}, {"v": ""}, {"raise": 1}, {"raise": 1},
-                         {"raise": 1, "base": True}])
+                         {"raise": 1, "base": True}, {"raise": 1, "falsy": True}])
   rf_final = st.sampled_from([{"v": "token"}, {"v": "token"}, {"v": 0}, {"v": None}, {"v": False}, {"v": ""}, "exc", "exc"])
   rfop = st.builds(lambda ab, fin, delay, catch: {"op": "rfop", "script": list(ab) + [fin], "delay": delay, "catch": catch},
                    st.sampled_from([[], [], ["abort"], ["chain"], ["abort", "abort"], ["chain", "abort"], ["abort", "chain"], ["chain", "chain"]]),
